@@ -39,6 +39,7 @@ PP_CONFIGS = [
     {"indent": 0, "newlinechar": " "},
     {"indent": 1, "spacer": "\t", "end_comment": True},
     {"align_values": True},
+    {"separate_complex_types": True},  # may reorder its argument: purity is not asserted for this one, history independence is
 ]
 VERSIONS = [None, 6.0, 7.0, 7.6, 8.0, 8.2]
 DEP_MODULES = ["lark.lexer", "lark.parsers.lalr_parser", "lark.parsers.lalr_interactive_parser",
@@ -224,7 +225,8 @@ class C12(core.Check):
                 ops.append({"op": "pprint", "doc": d, "c": r.random() < 0.5, "p": r.random() < 0.3, "pp": r.randrange(len(PP_CONFIGS)),
                             "poke": r.choice([None, None, None, "web", "metadata", "layers"])})
             elif name == "validate":
-                ops.append({"op": "validate", "doc": d, "p": r.random() < 0.5, "version": same_v if same_v is not None else r.choice(VERSIONS)})
+                ops.append({"op": "validate", "doc": d, "p": r.random() < 0.5, "version": same_v if same_v is not None else r.choice(VERSIONS),
+                            "add_comments": r.random() < 0.12})
             else:
                 ops.append({"op": "export", "schema": r.choice(SMALL_SCHEMAS), "version": r.choice(VERSIONS), "how": r.choice(["versioned", "expanded"])})
         if faults and k.random() < 0.4:
@@ -237,6 +239,17 @@ class C12(core.Check):
             docs[vid] = vdoc
             pre = [{"op": "validate", "doc": vid, "p": False, "version": vver} for _ in range(3)]
             ops[0:0] = pre
+            reuse["validator"] = True
+        if k.random() < 0.2:
+            # motif: one call asks the reused Validator to annotate its argument (add_comments=True); the following
+            # ordinary calls on invalid documents must leave theirs alone again
+            bid = f"d{len(docs)}"
+            docs[bid] = 'LAYER\n  NAME "invalid"\n  TYPE POINT\n  MINSCALEDENOM -1\n  CLASS\n    MAXSIZE -5\n  END\nEND\n'
+            pre = [{"op": "validate", "doc": bid, "p": r.random() < 0.5, "version": None, "add_comments": True},
+                   {"op": "validate", "doc": bid, "p": r.random() < 0.5, "version": None, "add_comments": False},
+                   {"op": "validate", "doc": bid, "p": False, "version": r.choice(VERSIONS), "add_comments": False}]
+            at = r.randint(0, len(ops))
+            ops[at:at] = pre
             reuse["validator"] = True
         tw = files.pop("__twin__", None)
         if tw:
@@ -290,9 +303,13 @@ class C12(core.Check):
                     di = (t + len(calls)) % len(ids)
                 if fn in ("loads", "open", "load"):
                     kw = {"include_comments": r.random() < 0.5, "include_position": r.random() < 0.4, "expand_includes": r.random() < 0.8}
-                    calls.append({"fn": fn, "doc": ids[di], "kw": dict(same_kw) if same_kw else kw})
+                    kw = dict(same_kw) if same_kw else kw
+                    if r.random() < 0.5:
+                        # the way most callers write it: options left at their defaults are not mentioned
+                        kw = {k_: v_ for k_, v_ in kw.items() if v_ != {"include_comments": False, "include_position": False, "expand_includes": True}[k_]}
+                    calls.append({"fn": fn, "doc": ids[di], "kw": kw})
                 elif fn in ("dumps", "dump", "save"):
-                    calls.append({"fn": fn, "d": di, "kw": dict(PP_CONFIGS[r.randrange(len(PP_CONFIGS))])})
+                    calls.append({"fn": fn, "d": di, "kw": dict(PP_CONFIGS[r.randrange(len(PP_CONFIGS) - 1)])})  # (never the reordering option on shared inputs)
                     if fn == "save" and shared_save:
                         calls[-1]["shared_path"] = True
                 elif fn == "validate":
@@ -409,7 +426,8 @@ class C12(core.Check):
                 r = core.call(lambda: self.PrettyPrinter(**PP_CONFIGS[op["pp"]]).pprint(d))
             else:
                 root = (d[0] if isinstance(d, list) else d).get("__type__", "map")
-                r = core.call(lambda: self.Validator().validate(d, schema_name=root, version=op["version"]))
+                ac = {"add_comments": True} if op.get("add_comments") else {}  # an ordinary call does not mention the option at all
+                r = core.call(lambda: self.Validator().validate(d, schema_name=root, version=op["version"], **ac))
             return [r[0], r[1]]
 
     def exec_w1(self, case):
@@ -496,7 +514,8 @@ class C12(core.Check):
                     violation = self.viol("input_differs_from_pristine", name, {"op": op, "index": idx}, world=world, op=name)
                     break
                 self.poke(d, op.get("poke"))
-                arg_obj, arg_before = d, core.freeze(d)
+                if not PP_CONFIGS[op["pp"]].get("separate_complex_types"):
+                    arg_obj, arg_before = d, core.freeze(d)
                 with simfs.mounted(fs):
                     try:
                         pr = get_printer(op["pp"])
@@ -510,10 +529,12 @@ class C12(core.Check):
                     violation = self.viol("input_differs_from_pristine", name, {"op": op, "index": idx}, world=world, op=name)
                     break
                 root = (d[0] if isinstance(d, list) else d).get("__type__", "map")
-                arg_obj, arg_before = d, core.freeze(d)
+                if not op.get("add_comments"):
+                    arg_obj, arg_before = d, core.freeze(d)  # (with add_comments=True the call may annotate its argument)
                 with simfs.mounted(fs):
                     v = get_validator()
-                    got = core.call(lambda: v.validate(d, schema_name=root, version=op["version"]))
+                    ac = {"add_comments": True} if op.get("add_comments") else {}
+                    got = core.call(lambda: v.validate(d, schema_name=root, version=op["version"], **ac))
                 wk = "validator"
             elif name == "export":
                 with simfs.mounted(fs):
@@ -774,10 +795,25 @@ class C12(core.Check):
             out["case_explicit"] = explicit
         return out
 
+    @staticmethod
+    def global_settings():
+        """process-wide knobs no library call has any business changing"""
+        import logging
+        import warnings
+
+        root = logging.getLogger()
+        return {"recursionlimit": sys.getrecursionlimit(), "switchinterval": sys.getswitchinterval(), "cwd": simfs._real_getcwd(),
+                "environ": core.digest(sorted(os.environ.items())), "logging_root_level": root.level, "logging_root_handlers": len(root.handlers),
+                "logging_disabled": logging.root.manager.disable, "warnings_filters": len(warnings.filters)}
+
     def execute(self, case):
-        if case["world"] in ("W1", "W1F"):
-            return self.exec_w1(case)
-        return self.exec_w2(case)
+        before = self.global_settings()
+        r = self.exec_w1(case) if case["world"] in ("W1", "W1F") else self.exec_w2(case)
+        after = self.global_settings()
+        if not r.get("violation") and after != before:
+            changed = {k_: [before[k_], after[k_]] for k_ in before if before[k_] != after[k_]}
+            r["violation"] = self.viol("process_global_setting_changed", "process", changed, world=case["world"], op="process")
+        return r
 
     # ------------------------------------------------------------ shrinking
     def shrink_fields(self, case):
